@@ -110,6 +110,10 @@ def records(ck, rnd, circuits, ms, per_circuit_opts=None):
                 lanes = 16
             stim = lsim.rand_stim(rnd, m, slen, lanes) if ci > 13 or m > 2 else \
                 [[(p >> (i % 4)) & 1 for p in range(lanes)] for i in range(slen)]
+            static = m == 8 and ci > 13 and rnd.random() < 0.2
+            if static:
+                # history: a batch WITHOUT any transition (codes 0, 1, X, -) on a simulator that has just simulated transitions
+                stim = [[rnd.choice([0, 3, 0, 3, 1, 2]) for _ in range(lanes)] for _ in range(slen)]
             opts = [(r, s) for r in (False, True) for s in (False, True)]
             if not ck.thorough and ci > 13:
                 opts = rnd.sample(opts, 2)
@@ -123,9 +127,9 @@ def records(ck, rnd, circuits, ms, per_circuit_opts=None):
                         pos = sorted(set([0, 255, 256, n - 1] + [x for x in (65535, 65536) if x < n] + [rnd.randrange(n) for _ in range(lanes)]))[:lanes] if lanes >= 4 else None
                         if pos is not None and len(pos) == lanes:
                             wide = [n, pos]
-                    rec = lsim.record(c, st, m, lanes, stim, reuse, strip, use_cb, rnd, cycles=cyc, wide=wide)
+                    rec = lsim.record(c, st, m, lanes, stim, reuse, strip, use_cb, rnd, cycles=cyc, wide=wide, force_warm=static)
                     recs.append(rec)
-                    meta.append(dict(circuit=gen.circuit_state(c), m=m, lanes=lanes, stim=stim, reuse=reuse, strip=strip, cb=use_cb, cyc=list(cyc), wide=wide))
+                    meta.append(dict(circuit=gen.circuit_state(c), m=m, lanes=lanes, stim=stim, reuse=reuse, strip=strip, cb=use_cb, cyc=list(cyc), wide=wide, static=static))
     return recs, meta
 
 
@@ -183,7 +187,7 @@ def replay_case(ck, case, pids):
     mt = case['input']
     c = gen.circuit_from_state(mt['circuit'])
     st = lsim.struct(c)
-    rec = lsim.record(c, st, mt['m'], mt['lanes'], mt['stim'], mt['reuse'], mt['strip'], mt['cb'], random.Random(ck.seed), cycles=mt.get('cyc', ()), wide=mt.get('wide'))
+    rec = lsim.record(c, st, mt['m'], mt['lanes'], mt['stim'], mt['reuse'], mt['strip'], mt['cb'], random.Random(ck.seed), cycles=mt.get('cyc', ()), wide=mt.get('wide'), force_warm=mt.get('static', False))
     judge(ck, [rec], [mt], pids)
 
 
